@@ -259,3 +259,15 @@ where
     }
     slots.into_iter().map(|r| r.unwrap()).collect()
 }
+
+// ------------------------------------------------------------------------------------------------
+// per-scheme acceptance tally: every add_object of the harness goes through `sess::add_tallied`; the
+// report turns it into vacuity guards (a scheme whose every object is refused is not being checked)
+pub static ADD_OK: [std::sync::atomic::AtomicU64; 256] = [const { std::sync::atomic::AtomicU64::new(0) }; 256];
+pub static ADD_REFUSED: [std::sync::atomic::AtomicU64; 256] = [const { std::sync::atomic::AtomicU64::new(0) }; 256];
+pub fn tally_add(fec_id: u8, ok: bool) {
+    (if ok { &ADD_OK } else { &ADD_REFUSED })[fec_id as usize].fetch_add(1, Ordering::Relaxed);
+}
+pub fn tally_snapshot() -> Vec<(u8, u64, u64)> {
+    (0..256usize).map(|i| (i as u8, ADD_OK[i].load(Ordering::Relaxed), ADD_REFUSED[i].load(Ordering::Relaxed))).filter(|x| x.1 + x.2 > 0).collect()
+}
